@@ -154,6 +154,30 @@ def finding_dup(ob, pid):
     return False
 
 
+def finding_dup_cached(case, ctx, i, sid, pid, pc):
+    """Form c of known finding DUP: the operation that installed the key cache's current latest key for `pid` (the last one before `i`
+    in that cache that read the latest row) went through the duplicate fallback and adopted exactly (pid, pc); operation `i` then used
+    the cached copy without another latest-key read."""
+    cache = ctx.cache_of(sid)
+    c2 = Ctx(case)
+    last = None
+    for j in range(i):
+        op, ob = case["ops"][j], case["obs"][j]
+        c2.feed(op, ob)
+        if op["k"] not in ("encrypt", "decrypt"):
+            continue
+        s = op.get("s", 0)
+        if s not in c2.sess or c2.cache_of(s) != cache:
+            continue
+        reads = [e for e in ev_list(ob) if e["k"] == "MLoadLatest" and (e.get("a") or [None])[0] == pid]
+        if reads:
+            a = reads[-1]["a"]
+            last = finding_dup(ob, pid) and a[1] == "some" and a[2] == pc
+    if any(e["k"] == "MLoadLatest" and (e.get("a") or [None])[0] == pid for e in ev_list(case["obs"][i])):
+        return False
+    return bool(last)
+
+
 def mon_c01(cases):
     for ci, c in enumerate(cases):
         ctx = Ctx(c)
@@ -175,6 +199,11 @@ def mon_c02(cases):
     for ci, c in enumerate(cases):
         malformed = any("malformed" in t for t in c.get("tags") or [])
         for i, (op, ob) in enumerate(zip(c["ops"], c["obs"])):
+            if ob["r"] == "stuck":
+                # "a failed operation returns an error ... once the faults stop the next operation succeeds": an operation that never
+                # returns does neither (the watchdog gave it 20 s of real time; nothing in these histories waits on a real clock)
+                yield dict(what="%s never returned (wedged after the failures earlier in this history)" % op["k"], case=ci, op=i, finding=None)
+                continue
             if op["k"] != "encrypt":
                 continue
             if ob["r"] == "enc":
@@ -246,7 +275,7 @@ def mon_c04(cases):
             ikp = ob.get("ikparent")
             if ikp and ikp[1] * SEC + p["Expire"] + p["RCI"] < t:
                 f = "C04-IK" if finding_ik(c, ctx, i, sid, ob["pid"], ob["pc"], t, p["RCI"]) else (
-                    "C04-DUP" if finding_dup(ob, ob["pid"]) or (ob["pid"], ob["pc"]) in born_bad else None)
+                    "C04-DUP" if finding_dup(ob, ob["pid"]) or (ob["pid"], ob["pc"]) in born_bad or finding_dup_cached(c, ctx, i, sid, ob["pid"], ob["pc"]) else None)
                 yield dict(what="intermediate key still used more than one revoke-check interval after its system key expired", case=ci, op=i, finding=f)
 
 
@@ -296,7 +325,7 @@ def mon_c05(cases):
                                 and (e.get("a") or [None])[-1] is True for e in ev_list(ob))
                 if ikp and rv["id"] == ikp[0] and rv["created"] == ikp[1] and t > rv["at"] + 2 * p["RCI"] and stamp > ikp[1] and (stamp > ob["pc"] or made_here):
                     f = "C05-IK" if finding_ik(c, ctx, i, sid, ob["pid"], ob["pc"], t, p["RCI"]) else (
-                        "C05-DUP" if finding_dup(ob, ob["pid"]) or (ob["pid"], ob["pc"]) in born_bad else None)
+                        "C05-DUP" if finding_dup(ob, ob["pid"]) or (ob["pid"], ob["pc"]) in born_bad or finding_dup_cached(c, ctx, i, sid, ob["pid"], ob["pc"]) else None)
                     yield dict(what="record written under an intermediate key whose system key was revoked more than two intervals ago", case=ci, op=i, finding=f)
 
 
@@ -378,6 +407,46 @@ def mon_c09(cases):
                     sks = sk_secrets(c)
                 f = "C09-J" if set(leak[1]) <= sks and dup_ik_store_before(c, i) else None
                 yield dict(what=leak[0], case=ci, op=i, finding=f)
+
+
+def mon_c14(cases):
+    """C14's end state on sequential histories in which KMS round trips take time (the clock crosses stamp boundaries while a key is being
+    created): every returned record is under keys that are in the metastore and that another process can load."""
+    for ci, c in enumerate(cases):
+        for i, (op, ob) in enumerate(zip(c["ops"], c["obs"])):
+            if op["k"] != "encrypt" or ob["r"] != "enc":
+                continue
+            if not ob.get("durable"):
+                yield dict(what="encrypt returned a record under a key chain that is not in the metastore (the intermediate key row, or the system key row it names, is missing): "
+                                "no other process can load it", case=ci, op=i, finding=None)
+            elif ob.get("refdec") != "ok":
+                yield dict(what="another process, holding only the metastore and the KMS, cannot decrypt the returned record: %s" % ob.get("refdec"), case=ci, op=i, finding=None)
+
+
+def mon_c16(cases):
+    """Session-cache histories with expiry under the virtual clock: holders keep working, every secret is released exactly once, nothing
+    is left once every holder and the factory closed.  (System-key secrets leaked through the duplicate-store path are finding C09-J of
+    property C09 and are not session resources: they are left to C09.)"""
+    for ci, c in enumerate(cases):
+        sks = None
+        malformed = any("malformed" in t for t in c.get("tags") or [])
+        for i, (op, ob) in enumerate(zip(c["ops"], c["obs"])):
+            for e in ev_list(ob):
+                if e["k"] == "SUseClosed":
+                    yield dict(what="a key of a session was used after it had been released", case=ci, op=i, finding=None)
+                if e["k"] == "SCloseAgain":
+                    yield dict(what="a session's key was released twice", case=ci, op=i, finding=None)
+            if ob["r"] in ("panic", "stuck"):
+                yield dict(what="%s on a handed-out session %s" % (op["k"], "panicked: %s" % ob.get("panicmsg") if ob["r"] == "panic" else "never returned"), case=ci, op=i, finding=None)
+            if op["k"] == "encrypt" and ob["r"] == "err" and not op.get("faults") and not malformed:
+                yield dict(what="encrypt on a session its holder has not closed failed without any injected fault", case=ci, op=i, finding=None)
+            live = ob.get("live") or []
+            if i == len(c["ops"]) - 1 and c.get("torn_down") and live:
+                if sks is None:
+                    sks = sk_secrets(c)
+                if not (set(live) <= sks and dup_ik_store_before(c, i)):
+                    yield dict(what="secrets %s still live after every session and the factory were closed: a session that left the cache was never torn down" % live,
+                               case=ci, op=i, finding=None)
 
 
 def mon_c10(cases):
@@ -483,10 +552,10 @@ def mon_c20(cases):
 
 
 MONITORS = {"C01": mon_c01, "C02": mon_c02, "C03": mon_c03, "C04": mon_c04, "C05": mon_c05, "C07": mon_c07,
-            "C09": mon_c09, "C10": mon_c10, "C20": mon_c20}
+            "C09": mon_c09, "C10": mon_c10, "C14": mon_c14, "C16": mon_c16, "C20": mon_c20}
 
 # which trace projections must agree with the model for each property (see Cases/EnvRun.v)
-MASK = {"C01": 1, "C02": 1 | 2, "C03": 4 | 8 | 16, "C04": 1 | 2, "C05": 1 | 2, "C07": 1, "C09": 16 | 32, "C10": 1 | 16, "C20": 2 | 4}
+MASK = {"C01": 1, "C02": 1 | 2, "C03": 4 | 8 | 16, "C04": 1 | 2, "C05": 1 | 2, "C07": 1, "C09": 16 | 32, "C10": 1 | 16, "C16": 16 | 32, "C20": 2 | 4}
 
 
 def nontrivial(prop, c):
@@ -521,7 +590,8 @@ def summarize_case(c, upto=None, width=14):
 
 def shrink_ops(case, i):
     """The failing prefix is the replay (histories are deterministic given the op list)."""
-    return {"T0": case["t0"], "Cfg": case.get("cfg"), "Tags": case.get("tags"), "Ops": case["ops"][:i + 1]}
+    return {"T0": case["t0"], "Cfg": case.get("cfg"), "Tags": case.get("tags"), "Ops": case["ops"][:i + 1],
+            "torn_down": bool(case.get("torn_down")) and i == len(case["ops"]) - 1}
 
 
 def finish_env(ck, prop, cases, rule, extra_tb=(), corr=True, mask=None):
